@@ -62,6 +62,17 @@ def encoder(ctx, r, F, T):
     if b is None:
         ctx.missing(r, "FuzzyHashLengthEncoding::new", cfg=F.key)
         return
+    why = _encoder_semantics(F, b)
+    if why is None or not why.startswith("cannot evaluate"):
+        # decided by exact evaluation of the encoder at every boundary of its brackets (any spelling of the search)
+        ctx.ob(r, ("LengthEncoding::new", "zero-arm"), why is None, why or "", cfg=F.key, where=b.where(), detail={"engine": "evaluation"})
+        ctx.ob(r, ("LengthEncoding::new", "too-large-arm"), why is None, why or "", cfg=F.key, where=b.where())
+        mx = F.const_int("length::MAX")
+        ctx.ob(r, ("LengthEncoding::new", "MAX-constant"), mx == 4224281216, "length::MAX=%r" % mx, cfg=F.key, trivial=True)
+        ctx.ob(r, ("LengthEncoding::new", "search-arms"), why is None,
+               "the encoder does not return the smallest code whose top value is >= len: %s" % why, cfg=F.key, where=b.where())
+        _try_from_rule(ctx, r, F)
+        return
     paths = sym.Sym(b).paths()
     rets = [p for p in paths if p.end == "return"]
     clz = call("core::num::<impl u32>::leading_zeros", P(1))
@@ -132,29 +143,7 @@ def encoder(ctx, r, F, T):
            ("the clz-restricted search does not have the reference shape bottom + binary_search(T[I[clz+1]..I[clz]], len) on both arms: %s" if bracketed else
             "the whole-table search does not have the reference shape binary_search(T, len) -> i on both arms: %s") % msgs,
            cfg=F.key, where=b.where())
-    tb = [x for x in F.bodies if x.name == "try_from" and x.d.get("impl", "").startswith("<length::FuzzyHashLengthEncoding as")]
-    ctx.instance(r)
-    if len(tb) != 1:
-        ctx.missing(r, "TryFrom<u32> for FuzzyHashLengthEncoding", cfg=F.key)
-    else:
-        ps = cmpmodel.ret_paths(tb[0])
-        got = n(ps[0].ret) if len(ps) == 1 else None
-        want = ("call", "core::option::Option::<T>::ok_or", (("call", "length::FuzzyHashLengthEncoding::new", (P(1),)), ("agg", "adt:errors::ParseError::LengthIsTooLarge", ())))
-        okm = got == want
-        if not okm:
-            # any other spelling: new(len) = Some(v) -> Ok(v); None -> Err(LengthIsTooLarge)
-            from .. import evalx
-            S2 = sym.Sym(tb[0])
-            okm = True
-            for res, wantv in ((("Some", "V"), ("Ok", "V")), (("None",), ("Err", ("adt", "errors::ParseError::LengthIsTooLarge")))):
-                try:
-                    gv = evalx.run(S2, F, S2.paths(), {"symbolic": True, "params": {1: "LEN"}, "no_inline": True,
-                                                        "calls": {"length::FuzzyHashLengthEncoding::new": lambda a, res=res: res}})
-                except (evalx.Unknown, evalx.Panics):
-                    gv = None
-                if gv != wantv:
-                    okm = False
-        ctx.ob(r, ("TryFrom<u32>", "maps-none"), okm, "TryFrom<u32> is %s; reference new(len).ok_or(LengthIsTooLarge)" % (sym.fmt(got) if got else got), cfg=F.key, where=tb[0].where())
+    _try_from_rule(ctx, r, F)
 
 
 def range_rule(ctx, r, F):
@@ -188,6 +177,127 @@ def range_rule(ctx, r, F):
         why = _range_semantics(F, b)
     ctx.ob(r, ("LengthEncoding::range", "shape"), why is None,
            "range() is not (0 -> 0..=T[0]; v>=170 -> None; else T[v-1]+1..=T[v]) on all 256 codes: %s" % why, cfg=F.key, where=b.where())
+
+
+def _encoder_semantics(F, b):
+    """None if FuzzyHashLengthEncoding::new(len) == Some(smallest i with TOP[i] >= len) for len <= MAX and None above, evaluated
+    exactly (evalx; tables from the compiler's constant evaluation; binary_search / partition_point / leading_zeros computed) at
+    len in {0, 1, T[i]-1, T[i], T[i]+1 for every table entry, MAX+1, 2^31, 2^32-1}: the encoder compares len only with table
+    entries and powers of two, so it is constant between these points.  Else a description."""
+    from .. import evalx
+    from .c17 import table_values
+    T = table_values(F, "length::TOP_VALUE_BY_ENCODING")
+    if not T:
+        return "cannot evaluate: TOP_VALUE_BY_ENCODING"
+    S = sym.Sym(b)
+    try:
+        paths = S.paths()
+    except sym.PathLimit:
+        return "cannot evaluate: too many paths"
+    if any(p.end == "loop" for p in paths):
+        return "cannot evaluate: loop"
+    evalx.set_target(F)
+    cache = {}
+
+    def tabs(path):
+        if path not in cache:
+            cache[path] = table_values(F, path)
+        return cache[path]
+
+    def tview(v):
+        if isinstance(v, tuple) and v[:1] == ("tab",):
+            arr = tabs(v[1])
+            return (v[1], 0, len(arr)) if arr else None
+        if isinstance(v, tuple) and v[:1] == ("tabview",):
+            return v[1:]
+        return None
+
+    def index(v, r_):
+        tv = tview(v)
+        if tv is None:
+            raise evalx.Unknown("index of %r" % (v,))
+        if isinstance(r_, int):
+            arr = tabs(tv[0])
+            if not (0 <= r_ < tv[2] - tv[1]):
+                raise evalx.Panics("index %d out of range" % r_)
+            return arr[tv[1] + r_]
+        if isinstance(r_, tuple) and r_[:1] == ("adt",) and r_[1].endswith("Range::Range") and all(isinstance(x, int) for x in r_[2:]):
+            lo, hi = r_[2], r_[3]
+            if not (0 <= lo <= hi <= tv[2] - tv[1]):
+                raise evalx.Panics("range %d..%d out of range" % (lo, hi))
+            return ("tabview", tv[0], tv[1] + lo, tv[1] + hi)
+        raise evalx.Unknown("index by %r" % (r_,))
+
+    def bsearch(v, key):
+        tv = tview(v)
+        if tv is None or not isinstance(key, int):
+            raise evalx.Unknown("binary_search(%r, %r)" % (v, key))
+        arr = tabs(tv[0])[tv[1]:tv[2]]
+        import bisect
+        i_ = bisect.bisect_left(arr, key)
+        return ("Ok", i_) if i_ < len(arr) and arr[i_] == key else ("Err", i_)
+    for ln in sorted({0, 1, 2, T[-1] + 1, 1 << 31, (1 << 32) - 1} | {t + d for t in T for d in (-1, 0, 1) if 0 <= t + d < (1 << 32)}):
+        def ppoint(v, cl, ln=ln):
+            tv = tview(v)
+            if tv is None or not (isinstance(cl, tuple) and cl[:1] == ("closure",)):
+                raise evalx.Unknown("partition_point(%r)" % (v,))
+            cb_ = F.fn(cl[1])
+            S3 = sym.Sym(cb_)
+            arr = tabs(tv[0])[tv[1]:tv[2]]
+            k_ = 0
+            for x_ in arr:
+                if not evalx.run(S3, F, S3.paths(), {"symbolic": True, "params": {1: cl[2], 2: x_}}, tabs):
+                    break
+                k_ += 1
+            return k_
+        asg = {"symbolic": True, "params": {1: ln},
+               "calls": {"::index": index, "core::slice::<impl [T]>::binary_search": bsearch, "core::slice::<impl [T]>::partition_point": ppoint,
+                         "::as_slice": lambda v: v,
+                         "core::num::<impl u32>::leading_zeros": lambda x: 32 - x.bit_length() if isinstance(x, int) else (_ for _ in ()).throw(evalx.Unknown("leading_zeros")),
+                         "core::slice::<impl [T]>::len": lambda v: (tview(v)[2] - tview(v)[1]) if tview(v) else (_ for _ in ()).throw(evalx.Unknown("len"))}}
+        try:
+            got = evalx.run(S, F, paths, asg, tabs)
+        except evalx.Panics as ex:
+            return "new(%d) panics (%s)" % (ln, ex)
+        except evalx.Unknown as ex:
+            return "cannot evaluate: %s" % ex
+        import bisect
+        want = ("None",) if ln > T[-1] else bisect.bisect_left(T, ln)
+        code = None
+        if isinstance(got, tuple) and got[:1] == ("Some",) and isinstance(got[1], tuple) and got[1][:1] == ("adt",) and len(got[1]) == 3:
+            code = got[1][2]
+        if want == ("None",):
+            if got != ("None",):
+                return "new(%d) returns %r; reference None (len > MAX)" % (ln, got)
+        elif code != want:
+            return "new(%d) returns %r; reference Some(code %d)" % (ln, got, want)
+    return None
+
+
+def _try_from_rule(ctx, r, F):
+    tb = [x for x in F.bodies if x.name == "try_from" and x.d.get("impl", "").startswith("<length::FuzzyHashLengthEncoding as")]
+    ctx.instance(r)
+    if len(tb) != 1:
+        ctx.missing(r, "TryFrom<u32> for FuzzyHashLengthEncoding", cfg=F.key)
+    else:
+        ps = cmpmodel.ret_paths(tb[0])
+        got = n(ps[0].ret) if len(ps) == 1 else None
+        want = ("call", "core::option::Option::<T>::ok_or", (("call", "length::FuzzyHashLengthEncoding::new", (P(1),)), ("agg", "adt:errors::ParseError::LengthIsTooLarge", ())))
+        okm = got == want
+        if not okm:
+            # any other spelling: new(len) = Some(v) -> Ok(v); None -> Err(LengthIsTooLarge)
+            from .. import evalx
+            S2 = sym.Sym(tb[0])
+            okm = True
+            for res, wantv in ((("Some", "V"), ("Ok", "V")), (("None",), ("Err", ("adt", "errors::ParseError::LengthIsTooLarge")))):
+                try:
+                    gv = evalx.run(S2, F, S2.paths(), {"symbolic": True, "params": {1: "LEN"}, "no_inline": True,
+                                                        "calls": {"length::FuzzyHashLengthEncoding::new": lambda a, res=res: res}})
+                except (evalx.Unknown, evalx.Panics):
+                    gv = None
+                if gv != wantv:
+                    okm = False
+        ctx.ob(r, ("TryFrom<u32>", "maps-none"), okm, "TryFrom<u32> is %s; reference new(len).ok_or(LengthIsTooLarge)" % (sym.fmt(got) if got else got), cfg=F.key, where=tb[0].where())
 
 
 def _range_semantics(F, b):
